@@ -5,6 +5,7 @@ mod avro;
 mod csv;
 mod json;
 mod probe;
+mod replay;
 mod util;
 
 use vcore::trace::Shards;
@@ -38,6 +39,7 @@ fn main() {
             );
         }
         "probe" => probe::run(),
+        "replay-avro" => replay::replay_avro(args.cases.as_deref().expect("--cases FILE")),
         other => {
             eprintln!("unknown driver {other}");
             std::process::exit(2);
